@@ -68,10 +68,16 @@ enum Input {
     Hex(Vec<u8>),
     /// seed, lines, NUL offset (usize::MAX = none)
     Gen(u64, usize, usize),
+    /// directed: ~70 KiB of lines without `x`; beyond offset 65536 one line contains `x` (the only
+    /// match of pattern `x`) and a NUL sits in the line chosen by `kind`:
+    /// a = the line after the match, b = the line before it, p = three lines later (passthru),
+    /// m = the matching line itself
+    Ctx(u64, char),
 }
 
 fn materialise(i: &Input) -> Vec<u8> {
     match i {
+        Input::Ctx(seed, kind) => materialise_ctx(*seed, *kind),
         Input::Hex(v) => v.clone(),
         Input::Gen(seed, lines, nul) => {
             let mut rng = Rng::new(*seed);
@@ -90,14 +96,53 @@ fn materialise(i: &Input) -> Vec<u8> {
     }
 }
 
+fn materialise_ctx(seed: u64, kind: char) -> Vec<u8> {
+    let mut rng = Rng::new(seed);
+    let mut lines: Vec<Vec<u8>> = vec![];
+    let mut total = 0usize;
+    while total < 70000 {
+        let mut l: Vec<u8> = (0..rng.range(1, 60)).map(|_| *rng.pick(b"aab  ")).collect();
+        l.push(b'\n');
+        total += l.len();
+        lines.push(l);
+    }
+    // index of the first line starting beyond the sniff window (+ some slack)
+    let mut off = 0;
+    let mut k = 0;
+    while off < 66000 {
+        off += lines[k].len();
+        k += 1;
+    }
+    k += rng.range(1, 8);
+    let k = k.min(lines.len() - 5);
+    lines[k] = b"ab x ba\n".to_vec();
+    let target = match kind {
+        'a' => k + 1,
+        'b' => k - 1,
+        'p' => k + 3,
+        _ => k,
+    };
+    let pos = rng.below(lines[target].len() - 1);
+    lines[target][pos] = 0;
+    lines.concat()
+}
+
 fn input_str(i: &Input) -> String {
     match i {
+        Input::Ctx(s, k) => format!("ctx:{}:{}", s, k),
         Input::Hex(v) => hex(v),
         Input::Gen(s, l, n) => format!("gen:{}:{}:{}", s, l, n),
     }
 }
 
 fn parse_input(s: &str) -> Option<Input> {
+    if let Some(r) = s.strip_prefix("ctx:") {
+        let f: Vec<&str> = r.split(':').collect();
+        if f.len() != 2 {
+            return None;
+        }
+        return Some(Input::Ctx(f[0].parse().ok()?, f[1].chars().next()?));
+    }
     if let Some(r) = s.strip_prefix("gen:") {
         let f: Vec<&str> = r.split(':').collect();
         if f.len() != 3 {
@@ -164,6 +209,20 @@ fn lib_run(
     strat: &Strat,
     file: Option<&Path>,
 ) -> LibRun {
+    lib_run_seq(m, det, after, before, passthru, &[(inp, file, PATH)], strat).pop().unwrap()
+}
+
+/// Several inputs searched IN SEQUENCE by one `Searcher` (one worker of rg: the roll buffer and the
+/// printer are reused from file to file), once into a recording sink and once into the real printer.
+fn lib_run_seq(
+    m: &RegexMatcher,
+    det: Det,
+    after: usize,
+    before: usize,
+    passthru: bool,
+    inputs: &[(&[u8], Option<&Path>, &str)],
+    strat: &Strat,
+) -> Vec<LibRun> {
     let mk = || {
         let mut b = builder(det, after, before, passthru);
         match strat {
@@ -178,26 +237,33 @@ fn lib_run(
         }
         b.build()
     };
-    let mut sink = RecSink::new();
-    let mut s = mk();
-    let r = match strat {
-        Strat::Slice => s.search_slice(m, inp, &mut sink),
-        Strat::Reader { script, .. } => s.search_reader(m, ScriptedReader::new(inp, script), &mut sink),
-        Strat::Path { .. } => s.search_path(m, file.unwrap(), &mut sink),
-    };
-    if let Err(e) = r {
-        sink.ev.push(err_class(&e).to_string());
-    }
+    let mut s1 = mk();
+    let mut s2 = mk();
     let mut printer = StandardBuilder::new().build_no_color(vec![]);
-    let mut s = mk();
-    let _ = match strat {
-        Strat::Slice => s.search_slice(m, inp, printer.sink_with_path(m, PATH)),
-        Strat::Reader { script, .. } => {
-            s.search_reader(m, ScriptedReader::new(inp, script), printer.sink_with_path(m, PATH))
+    let mut out = vec![];
+    let mut printed_so_far = 0usize;
+    for (inp, file, path) in inputs {
+        let mut sink = RecSink::new();
+        let r = match strat {
+            Strat::Slice => s1.search_slice(m, inp, &mut sink),
+            Strat::Reader { script, .. } => s1.search_reader(m, ScriptedReader::new(inp, script), &mut sink),
+            Strat::Path { .. } => s1.search_path(m, file.unwrap(), &mut sink),
+        };
+        if let Err(e) = r {
+            sink.ev.push(err_class(&e).to_string());
         }
-        Strat::Path { .. } => s.search_path(m, file.unwrap(), printer.sink_with_path(m, PATH)),
-    };
-    LibRun { events: sink.ev, printed: printer.into_inner().into_inner() }
+        let _ = match strat {
+            Strat::Slice => s2.search_slice(m, inp, printer.sink_with_path(m, path)),
+            Strat::Reader { script, .. } => {
+                s2.search_reader(m, ScriptedReader::new(inp, script), printer.sink_with_path(m, path))
+            }
+            Strat::Path { .. } => s2.search_path(m, file.unwrap(), printer.sink_with_path(m, path)),
+        };
+        let all = printer.get_mut().get_ref().clone();
+        out.push(LibRun { events: sink.ev, printed: all[printed_so_far..].to_vec() });
+        printed_so_far = all.len();
+    }
+    out
 }
 
 fn ev_bytes(e: &str) -> Option<Vec<u8>> {
@@ -686,6 +752,232 @@ fn run_count_events(m: &RegexMatcher, det: Det, inp: &[u8], mmap: bool, file: &P
     (n, bo)
 }
 
+// ---------------------------------------------------------------- seq cases: one Searcher, two inputs
+
+#[derive(Clone, Debug)]
+struct Seq {
+    pat: String,
+    det: Det,
+    after: usize,
+    before: usize,
+    passthru: bool,
+    inp1: Input,
+    inp2: Input,
+    strat: Strat,
+}
+
+impl Seq {
+    fn case_str(&self) -> String {
+        format!(
+            "seq pat={} det={} A={} B={} pt={} inp1={} inp2={} strat={}",
+            hex(self.pat.as_bytes()),
+            self.det.s(),
+            self.after,
+            self.before,
+            self.passthru as u8,
+            input_str(&self.inp1),
+            input_str(&self.inp2),
+            strat_str(&self.strat)
+        )
+    }
+    fn parse(parts: &[&str]) -> Option<Seq> {
+        let get = |k: &str| parts.iter().find_map(|p| p.strip_prefix(k).and_then(|r| r.strip_prefix('=')));
+        Some(Seq {
+            pat: String::from_utf8(unhex(get("pat")?)?).ok()?,
+            det: Det::parse(get("det")?)?,
+            after: get("A")?.parse().ok()?,
+            before: get("B")?.parse().ok()?,
+            passthru: get("pt")? == "1",
+            inp1: parse_input(get("inp1")?)?,
+            inp2: parse_input(get("inp2")?)?,
+            strat: parse_strat(get("strat")?)?,
+        })
+    }
+}
+
+/// A search must not depend on what the same `Searcher` (its roll buffer) searched before.
+fn run_seq(case: &str, c: &Seq, args: &Args, rep: &mut Report) {
+    rep.eval();
+    let m = match matcher(&c.pat, c.det) {
+        Some(m) => m,
+        None => return,
+    };
+    let i1 = materialise(&c.inp1);
+    let i2 = materialise(&c.inp2);
+    let (f1, f2) = if let Strat::Path { .. } = c.strat {
+        (Some(scratch_file(&args.scratch, "seq1", &i1)), Some(scratch_file(&args.scratch, "seq2", &i2)))
+    } else {
+        (None, None)
+    };
+    let both = lib_run_seq(
+        &m,
+        c.det,
+        c.after,
+        c.before,
+        c.passthru,
+        &[(&i1, f1.as_deref(), PATH), (&i2, f2.as_deref(), PATH)],
+        &c.strat,
+    );
+    let fresh = lib_run(&m, c.det, c.after, c.before, c.passthru, &i2, &c.strat, f2.as_deref());
+    rep.branch(&format!("seq:{}", c.det.s()));
+    let bin1 = both[0].events.iter().any(|e| e.starts_with("bin "));
+    let bin2 = fresh.events.iter().any(|e| e.starts_with("bin "));
+    if bin1 && bin2 {
+        rep.branch("seq:both-binary");
+        rep.nontrivial(case);
+    }
+    if both[1].events != fresh.events || both[1].printed != fresh.printed {
+        rep.violation(Violation {
+            kind: "impl_vs_spec".into(),
+            class: "".into(),
+            tie: "second search of a reused Searcher vs the same search on a fresh Searcher (theorem linebuffer_reused)".into(),
+            case: case.to_string(),
+            detail: format!(
+                "after an earlier search the second input gives events {:?} / output {:?}; a fresh searcher gives {:?} / {:?}",
+                &both[1].events[..both[1].events.len().min(6)],
+                show(&both[1].printed[..both[1].printed.len().min(200)]),
+                &fresh.events[..fresh.events.len().min(6)],
+                show(&fresh.printed[..fresh.printed.len().min(200)])
+            ),
+        });
+    }
+    if c.det != Det::None && both[1].printed.contains(&0) {
+        rep.violation(Violation {
+            kind: "impl_vs_spec".into(),
+            class: "".into(),
+            tie: "no 0x00 in the Standard printer's output unless detection is off".into(),
+            case: case.to_string(),
+            detail: format!("printer wrote a NUL for the second input: {:?}", show(&both[1].printed[..both[1].printed.len().min(200)])),
+        });
+    }
+}
+
+// ---------------------------------------------------------------- cli2 cases: rg -j1 over two files
+
+#[derive(Clone, Debug)]
+struct Cli2 {
+    pat: String,
+    mode: String,
+    explicit: bool,
+    mmap: bool,
+    inp1: Input,
+    inp2: Input,
+}
+
+impl Cli2 {
+    fn case_str(&self) -> String {
+        format!(
+            "cli2 pat={} mode={} ex={} mmap={} inp1={} inp2={}",
+            hex(self.pat.as_bytes()),
+            self.mode,
+            self.explicit as u8,
+            self.mmap as u8,
+            input_str(&self.inp1),
+            input_str(&self.inp2)
+        )
+    }
+    fn parse(parts: &[&str]) -> Option<Cli2> {
+        let get = |k: &str| parts.iter().find_map(|p| p.strip_prefix(k).and_then(|r| r.strip_prefix('=')));
+        Some(Cli2 {
+            pat: String::from_utf8(unhex(get("pat")?)?).ok()?,
+            mode: get("mode")?.to_string(),
+            explicit: get("ex")? == "1",
+            mmap: get("mmap")? == "1",
+            inp1: parse_input(get("inp1")?)?,
+            inp2: parse_input(get("inp2")?)?,
+        })
+    }
+}
+
+/// One rg worker (`-j1 --sort path`) over two files: stdout = the model's output for each file,
+/// each from a fresh search (files are independent), and no NUL unless --text.
+fn run_cli2(case: &str, c: &Cli2, args: &Args, drv: &mut Driver, rep: &mut Report) {
+    let rg = match &args.rg {
+        Some(p) => p.clone(),
+        None => return,
+    };
+    rep.eval();
+    let i1 = materialise(&c.inp1);
+    let i2 = materialise(&c.inp2);
+    let cwd = args.scratch.join("cli2");
+    let dir = cwd.join("d");
+    std::fs::create_dir_all(&dir).expect("scratch dir");
+    let (p1, p2) = (dir.join("f"), dir.join("g"));
+    std::fs::write(&p1, &i1).expect("write");
+    std::fs::write(&p2, &i2).expect("write");
+    let det_s = drv.ask(&format!("c14.det {} 0 {}", c.mode, c.explicit as u8));
+    let det = match Det::parse(&det_s) {
+        Some(d) => d,
+        None => return,
+    };
+    let m = match matcher(&c.pat, det) {
+        Some(m) => m,
+        None => return,
+    };
+    let strat = Strat::Path { mmap: c.mmap };
+    let mut want = String::new();
+    let mut both_bin = true;
+    for (inp, path, name) in [(&i1, &p1, "d/f"), (&i2, &p2, "d/g")] {
+        let run = lib_run(&m, det, 0, 0, false, inp, &strat, Some(path));
+        both_bin &= run.events.iter().any(|e| e.starts_with("bin "));
+        let sx = match events_sx(&run.events) {
+            Some(s) => s,
+            None => return,
+        };
+        let model = drv.ask(&format!("c14.print {} {} {}", det.s(), hex(name.as_bytes()), sx));
+        if model != "-" {
+            want.push_str(&model);
+        }
+    }
+    let mut cmd = Command::new(&rg);
+    cmd.current_dir(&cwd).args(["--no-config", "--no-ignore", "-j1", "--sort", "path", "-H", "--color", "never", "--no-heading", "-n"]);
+    match c.mode.as_str() {
+        "binary" => {
+            cmd.arg("--binary");
+        }
+        "text" => {
+            cmd.arg("--text");
+        }
+        _ => {}
+    }
+    cmd.arg(if c.mmap { "--mmap" } else { "--no-mmap" });
+    cmd.arg("-e").arg(&c.pat);
+    if c.explicit {
+        cmd.arg("d/f").arg("d/g");
+    } else {
+        cmd.arg("d");
+    }
+    let stdout = cmd.output().expect("run rg").stdout;
+    rep.branch(&format!("cli2:{}:{}:{}", c.mode, if c.explicit { "explicit" } else { "implicit" }, if c.mmap { "mmap" } else { "read" }));
+    if both_bin {
+        rep.branch("cli2:both-binary");
+        rep.nontrivial(case);
+    }
+    let want_hex = if want.is_empty() { "-".to_string() } else { want };
+    if want_hex != hex(&stdout) {
+        rep.violation(Violation {
+            kind: "impl_vs_model".into(),
+            class: "".into(),
+            tie: "rg -j1 over two files vs Model.BinaryOut per file (files are searched independently; theorem linebuffer_reused)".into(),
+            case: case.to_string(),
+            detail: format!(
+                "rg wrote {:?}, model {:?}",
+                show(&stdout[..stdout.len().min(300)]),
+                show(&unhex(&want_hex).map(|v| v[..v.len().min(300)].to_vec()).unwrap_or_default())
+            ),
+        });
+    }
+    if c.mode != "text" && stdout.contains(&0) {
+        rep.violation(Violation {
+            kind: "impl_vs_spec".into(),
+            class: "".into(),
+            tie: "no 0x00 on rg's stdout unless --text".into(),
+            case: case.to_string(),
+            detail: format!("rg wrote a NUL byte: {:?}", show(&stdout[..stdout.len().min(300)])),
+        });
+    }
+}
+
 // ---------------------------------------------------------------- generators
 
 fn gen_binary_input(rng: &mut Rng, pat: &str) -> Vec<u8> {
@@ -785,6 +1077,81 @@ fn gen_bs(rng: &mut Rng, big: bool) -> Bs {
     }
 }
 
+/// NUL beyond the 64 KiB sniff window of the slice strategies, in a chosen kind of delivered line.
+fn gen_bs_ctx(rng: &mut Rng) -> Bs {
+    let kind = *rng.pick(&['a', 'b', 'p', 'm']);
+    let (after, before, passthru) = match kind {
+        'a' => (rng.range(1, 2), rng.below(2), false),
+        'b' => (rng.below(2), rng.range(1, 2), false),
+        'p' => (0, 0, true),
+        _ => (rng.below(2), rng.below(2), false),
+    };
+    Bs {
+        pat: "x".into(),
+        det: *rng.pick(&[Det::Quit, Det::Convert]),
+        after,
+        before,
+        passthru,
+        input: Input::Ctx(rng.next() % 100000, kind),
+        strat: if rng.chance(1, 2) { Strat::Slice } else { Strat::Path { mmap: true } },
+    }
+}
+
+fn gen_cli_ctx(rng: &mut Rng) -> Cli {
+    let kind = *rng.pick(&['a', 'b', 'p', 'm']);
+    let (after, before, passthru) = match kind {
+        'a' => (1, 0, false),
+        'b' => (0, 1, false),
+        'p' => (0, 0, true),
+        _ => (0, 0, false),
+    };
+    Cli {
+        pat: "x".into(),
+        mode: rng.pick(&["auto", "binary"]).to_string(),
+        explicit: rng.chance(1, 2),
+        mmap: true,
+        after,
+        before,
+        passthru,
+        input: Input::Ctx(rng.next() % 100000, kind),
+    }
+}
+
+fn gen_seq(rng: &mut Rng) -> Seq {
+    let pat = rng.pick(&PATTERNS).to_string();
+    let inp1 = gen_binary_input(rng, &pat);
+    let inp2 = gen_binary_input(rng, &pat);
+    let len = inp1.len().max(inp2.len());
+    let strat = match rng.below(4) {
+        0 => Strat::Path { mmap: false },
+        1 => Strat::Slice,
+        2 => Strat::Reader { cap: None, script: vec![] },
+        _ => Strat::Reader { cap: Some(*rng.pick(&[1usize, 3, 8, 64])), script: gen_script(rng, len, false) },
+    };
+    Seq {
+        pat,
+        det: *rng.pick(&[Det::Quit, Det::Convert, Det::Convert]),
+        after: rng.below(2),
+        before: rng.below(2),
+        passthru: rng.chance(1, 10),
+        inp1: Input::Hex(inp1),
+        inp2: Input::Hex(inp2),
+        strat,
+    }
+}
+
+fn gen_cli2(rng: &mut Rng) -> Cli2 {
+    let pat = rng.pick(&PATTERNS).to_string();
+    Cli2 {
+        inp1: Input::Hex(gen_binary_input(rng, &pat)),
+        inp2: Input::Hex(gen_binary_input(rng, &pat)),
+        pat,
+        mode: rng.pick(&["auto", "binary", "binary", "text"]).to_string(),
+        explicit: rng.chance(1, 2),
+        mmap: rng.chance(1, 3),
+    }
+}
+
 fn gen_cli(rng: &mut Rng, big: bool) -> Cli {
     let pat = rng.pick(&PATTERNS).to_string();
     let input = if big {
@@ -815,6 +1182,18 @@ fn run_case(case: &str, args: &Args, drv: &mut Driver, rep: &mut Report) {
         },
         Some("bs") => match Bs::parse(&parts) {
             Some(c) => run_bs(case, &c, args, drv, rep),
+            None => rep.notes.push(format!("unparsable case: {}", case)),
+        },
+        Some("lb2") => match parse_lb2(&parts) {
+            Some((c, pre)) => check_lb_case_after(case, &c, Some(&pre), "c14", drv, rep),
+            None => rep.notes.push(format!("unparsable case: {}", case)),
+        },
+        Some("seq") => match Seq::parse(&parts) {
+            Some(c) => run_seq(case, &c, args, rep),
+            None => rep.notes.push(format!("unparsable case: {}", case)),
+        },
+        Some("cli2") => match Cli2::parse(&parts) {
+            Some(c) => run_cli2(case, &c, args, drv, rep),
             None => rep.notes.push(format!("unparsable case: {}", case)),
         },
         Some("cli") => match Cli::parse(&parts) {
@@ -848,6 +1227,11 @@ fn main() {
         let n = args.cases.unwrap_or(if args.thorough { 30000 } else { 2400 });
         for i in 0..n {
             let case = match i % 4 {
+                0 if i % 12 == 4 => {
+                    let bin = *rng.pick(&[Bin::Quit(0), Bin::Convert(0), Bin::Convert(0), Bin::Quit(b'x'), Bin::Convert(b'x')]);
+                    let (c, pre) = gen_lb2_case(&mut rng, bin);
+                    lb2_case_str(&c, &pre)
+                }
                 0 => {
                     let bin = match rng.below(6) {
                         0 => Bin::Quit(0),
@@ -859,7 +1243,11 @@ fn main() {
                     };
                     gen_lb_case(&mut rng, bin, i % 40 == 0).case_str()
                 }
+                1 if i % 20 == 1 => gen_bs_ctx(&mut rng).case_str(),
+                2 if i % 10 == 2 => gen_seq(&mut rng).case_str(),
                 1 | 2 => gen_bs(&mut rng, i % 50 == 1).case_str(),
+                _ if i % 40 == 7 => gen_cli_ctx(&mut rng).case_str(),
+                _ if i % 8 == 3 => gen_cli2(&mut rng).case_str(),
                 _ => gen_cli(&mut rng, i % 60 == 3).case_str(),
             };
             if i < 8 {
